@@ -187,13 +187,16 @@ Theorem C13_group : forall (s : song) (ev : event) (notelen slur : Z),
 Proof. exact emit_note_group. Qed.
 
 (* a group still pending at the end of the song is written: what reaches the SMF writer is, for every
-   track, the event list after check_tie_notes (then PlayFrom, if any) *)
+   track, the event list after check_tie_notes - as it is without PlayFrom, through the PlayFrom cut `post`
+   (the same function for every track, C14's subject) otherwise *)
 Theorem C13_flush_at_end : forall s : song,
   length (tracks_for_writer s) = length (s_tracks s) /\
+  (exists post : list event -> list event,
+     (s_play_from s < 0 -> forall evs, post evs = evs) /\
+     tracks_for_writer s = map (fun t => post (tr_events (check_tie_notes (s_timebase s) t))) (s_tracks s)) /\
   forall i t, nth_error (s_tracks s) i = Some t ->
-    nth_error (tracks_for_writer s) i =
-      Some (let evs := tr_events (check_tie_notes (s_timebase s) t) in
-            if s_play_from s <? 0 then evs else play_from (s_play_from s) evs)
+    (s_play_from s < 0 ->
+       nth_error (tracks_for_writer s) i = Some (tr_events (check_tie_notes (s_timebase s) t)))
     /\ (forall first rest, tr_tie_notes t = first :: rest ->
           tr_events (check_tie_notes (s_timebase s) t) = tr_events t ++ tie_out (s_timebase s) t first rest)
     /\ (tr_tie_notes t = [] -> tr_events (check_tie_notes (s_timebase s) t) = tr_events t)
